@@ -21,6 +21,7 @@ import (
 type guardTr struct {
 	ints  map[string]bool
 	bools map[string]bool
+	nilOf []string // variables that also occur through IsNil(): keep them as Int parameters too
 }
 
 func sanitize(s string) string {
@@ -67,6 +68,14 @@ func (g *guardTr) atom(e ast.Expr) (string, bool) {
 			return n, true
 		}
 	case *ast.CallExpr:
+		if len(t.Args) == 0 {
+			switch txt := exprText(t.Fun); {
+			case strings.HasSuffix(txt, ".ZeroInt"), strings.HasSuffix(txt, ".ZeroDec"), strings.HasSuffix(txt, ".LegacyZeroDec"):
+				return "(0 : Int)", true
+			case strings.HasSuffix(txt, ".OneInt"):
+				return "(1 : Int)", true
+			}
+		}
 		if id, ok := t.Fun.(*ast.Ident); ok && id.Name == "len" && len(t.Args) == 1 {
 			n := "len_" + sanitize(longText(t.Args[0]))
 			g.ints[n] = true
@@ -155,6 +164,14 @@ func (g *guardTr) cond(e ast.Expr) (string, bool) {
 			return "", false
 		}
 		switch sel.Sel.Name {
+		case "IsNil":
+			if len(t.Args) == 0 {
+				n := x + "_isNil"
+				g.bools[n] = true
+				delete(g.ints, x)
+				g.nilOf = append(g.nilOf, x)
+				return n, true
+			}
 		case "IsZero":
 			if len(t.Args) == 0 {
 				return "(" + x + " == 0)", true
